@@ -71,6 +71,7 @@ func (p *impl) Ping(a string) error { return p.run(a) }
 type hobj struct {
 	name string
 	id   uint32
+	svc  uint32 // id of the service the object belongs to
 	impl *impl
 }
 
@@ -141,9 +142,39 @@ func newRig(auth *logAuth, objs []string, gating bool) (*rig, error) {
 			}
 			o.id = id
 		}
+		o.svc = r.svcID
 		r.objs[name] = o
 	}
 	return r, nil
+}
+
+// addService registers one more service made of probe objects (the first gets object id 1).
+func (r *rig) addService(svcName string, objs []string) (uint32, error) {
+	var svc bus.Service
+	for i, name := range objs {
+		o := &hobj{name: name, impl: &impl{rig: r, name: name}}
+		actor := pong.PingPongObject(o.impl)
+		if i == 0 {
+			s, err := r.srv.NewService(svcName, actor)
+			if err != nil {
+				return 0, err
+			}
+			svc = s
+			o.id = 1
+		} else {
+			id, err := svc.Add(actor)
+			if err != nil {
+				return 0, err
+			}
+			o.id = id
+		}
+		o.svc = svc.ServiceID()
+		r.objs[name] = o
+	}
+	if svc == nil {
+		return 0, fmt.Errorf("service without object")
+	}
+	return svc.ServiceID(), nil
 }
 
 // connect creates connection `name`: a client end point with a sniffer handler
@@ -259,7 +290,7 @@ func (r *rig) settledLocked(returned func() int, deliveredToCalls func() int) bo
 		}
 		name := ""
 		for _, o := range r.objs {
-			if o.id == b.obj && b.svc == r.svcID {
+			if o.id == b.obj && b.svc == o.svc {
 				name = o.name
 			}
 		}
